@@ -207,7 +207,12 @@ pub fn add_prf_requests(r: &mut Rng, c: &mut Ceremony) {
                         s.prf = Some(CtapPrf { eval: r.bool().then(|| (r.bytes(32), r.bool().then(|| r.bytes(32)))), by_cred: None });
                     }
                 }
-                OpKind::GetAssertion(s) => s.prf = Some(CtapPrf { eval: Some((r.bytes(32), r.bool().then(|| r.bytes(32)))), by_cred: None }),
+                OpKind::GetAssertion(s) => {
+                    // per-credential salts now and then, also under ids the allow list does not name (the
+                    // authenticator falls back to the default salts then)
+                    let by_cred = r.chance(1, 4).then(|| vec![(if r.bool() { IdRef::NthOfRp(r.below(3) as u32) } else { IdRef::Unknown(r.bytes(16)) }, (r.bytes(32), r.bool().then(|| r.bytes(32))))]);
+                    s.prf = Some(CtapPrf { eval: Some((r.bytes(32), r.bool().then(|| r.bytes(32)))), by_cred })
+                }
                 _ => {}
             }
         }
@@ -245,6 +250,12 @@ impl Family for C06Family {
         };
         let opts = HistOpts { faults: faulty, concurrent: faulty && r.chance(1, 4), backend, weights: [4, 4, 2, 2], min_ops: 2, ..Default::default() };
         let mut c = gen_history(&mut r, &opts);
+        // now and then an imported record whose key the library cannot sign with (no alg label)
+        for p in c.prelude.iter_mut() {
+            if r.chance(1, 8) {
+                p.key_layout = 4;
+            }
+        }
         add_prf_requests(&mut r, &mut c);
         // sprinkle U2F and getInfo
         let n = c.actors.len();
